@@ -83,7 +83,7 @@ def enc(v, _depth=0):
         if role is not None:
             return {"$o": [d.get("_sim_tag"), role]}
     if _is_machine(v):
-        return {"$o": [SIM.constructing, "machine"]}
+        return {"$o": [getattr(SIM.tl, "constructing", None) or SIM.constructing, "machine"]}
     if _depth > 4:
         return "$deep"
     if t is tuple:
